@@ -66,6 +66,12 @@ impl GC {
         self.mark_bitmap.clear();
     }
 
+    /// verification hook: the addresses of the objects this collector manages
+    #[cfg(feature = "verif")]
+    pub fn verif_managed(&self) -> Vec<usize> {
+        self.objects.iter().map(|o| o.as_ptr() as usize).collect()
+    }
+
     /// Runs a full mark & sweep cycle
     /// Only objects in the given roots are kept alive
     pub fn run(&mut self, roots: &[&[Object]]) {
@@ -76,6 +82,8 @@ impl GC {
 
         self.mark_bitmap.clear();
         self.mark_bitmap.resize(self.objects.len(), false);
+        #[cfg(feature = "verif")]
+        let verif_before = self.objects.len();
 
         // Mark all reachable objects
         for root in roots.iter() {
@@ -86,6 +94,8 @@ impl GC {
 
         // Sweep all unreachable objects
         self.sweep();
+        #[cfg(feature = "verif")]
+        crate::verif::on_gc_run(self.objects.len(), verif_before - self.objects.len());
     }
 
     /// Sweep all unmarked objects
